@@ -307,6 +307,13 @@ fn c10_readnbuf_pool() {
     e2.0.__bindgen_anon_2 = libc::io_uring_sqe__bindgen_ty_2 { addr: (fp.buf_addr(id as usize) + got as usize) as u64 };
     e2.0.len = BS8 as u32 - got;
     assert!(sqe_bytes(&s2) == sqe_bytes(&e2), "continuation reads into the rest of the same slot");
+    // the second (ordinary, no buffer flag) read appends behind the first, in the same slot
+    let got2: u32 = kani::any();
+    kani::assume(got2 <= BS8 as u32 - got);
+    let out = <ReadOp<crate::io::ReadNBuf<ReadBuf>> as FdOp>::map_ok(&afd, out, (cflags(0), got2));
+    assert!(out.last_read == got2 as usize);
+    assert!(matches!(out.buf.owned, Some(p) if p.cast::<u8>().as_ptr().addr() == fp.buf_addr(id as usize) && p.len() == (got + got2) as usize), "repeated read: appended in arrival order, same slot");
+    assert!(fp.canaries_intact());
     std::mem::forget(out);
     kani::cover!(got == 8, "slot filled by the first read");
     kani::cover!(got == 1 && id == 3, "short first read into the last slot");
